@@ -109,7 +109,7 @@ let () =
         let nk = ref 0 in
         let toks = List.map (fun e -> match e with EK _ -> let i = !nk in incr nk; if Hashtbl.mem ext_born i then "k" else show_ev e | _ -> show_ev e) tr in
         let toks = (match nkind_of comb with
-          | Some k -> List.map show_nev (nest_run selective k scripts ops)
+          | Some k -> List.map show_nev (nest_run selective k (cont = "nestt") scripts ops)
           | None -> toks) in
         print_endline (String.concat " " (id :: toks))
       | _ -> failwith "case"
